@@ -2,6 +2,7 @@ package runner
 
 import (
 	"os"
+	"path/filepath"
 
 	"github.com/reedom/convergen/pkg/config"
 	"github.com/reedom/convergen/pkg/generator"
@@ -18,6 +19,13 @@ import (
 // the parsed base code. Finally, it generates the output files using the generated code and
 // the provided configuration options.
 func Run(conf config.Config) error {
+	// Packages are looked up from the working directory, by go list as well as by
+	// goimports. Work from the directory of the setup file so that the result is the
+	// same wherever the tool was started.
+	if err := enterInputDir(&conf); err != nil {
+		return err
+	}
+
 	if conf.Log != "" {
 		f, err := os.OpenFile(conf.Log, os.O_RDWR|os.O_TRUNC|os.O_CREATE, 0644)
 		if err != nil {
@@ -68,4 +76,20 @@ func Run(conf config.Config) error {
 	}
 
 	return nil
+}
+
+// enterInputDir makes the paths of conf absolute and changes to the directory of
+// the input file.
+func enterInputDir(conf *config.Config) error {
+	for _, p := range []*string{&conf.Input, &conf.Output, &conf.Log} {
+		if *p == "" {
+			continue
+		}
+		abs, err := filepath.Abs(*p)
+		if err != nil {
+			return err
+		}
+		*p = abs
+	}
+	return os.Chdir(filepath.Dir(conf.Input))
 }
